@@ -428,6 +428,15 @@ func tfSchema() *schema.BodySchema {
 									},
 								},
 							},
+							// a second nested block type next to it, below a three-step address (data.<type>.<name>)
+							"timeouts": {
+								Type: schema.BlockTypeObject,
+								Body: &schema.BodySchema{
+									Attributes: map[string]*schema.AttributeSchema{
+										"read": {IsOptional: true, Constraint: schema.AnyExpression{OfType: cty.String}},
+									},
+								},
+							},
 						},
 					},
 				},
@@ -647,6 +656,9 @@ data "aws_ami" "ubuntu" {
   filter {
     name   = "name"
     values = ["ubuntu-*"]
+  }
+  timeouts {
+    read = "5m"
   }
 }
 
@@ -900,6 +912,8 @@ func worldTFBad() *World {
 			"cut2.tf": "locals {\n  cut =upper(\n  next = 1\n",
 			// an index step without closing bracket (recovered by the parser up to the start of a later line)
 			"cut3.tf": "output \"cut\" {\n  value = [\"z\", var.extra[1%{]\n}\n",
+			// a half-typed namespaced function name with a multi-byte letter
+			"cut4.tf": "locals {\n  fn = provider::\u00e9\n}\n",
 		},
 	}
 }
@@ -937,6 +951,7 @@ func kinds() *World {
 			"any_n":  {IsOptional: true, Constraint: schema.AnyExpression{OfType: cty.Number}},
 			// an attribute name with a letter followed by a combining mark (two code points, one column)
 			"obj2":   {IsOptional: true, Constraint: schema.Object{Attributes: schema.ObjectAttributes{"p": {IsOptional: true, Constraint: schema.LiteralType{Type: cty.String}}, "qe\u0301": {IsOptional: true, Constraint: schema.LiteralType{Type: cty.Bool}}}}},
+			"obj4":   {IsOptional: true, Constraint: schema.Object{Attributes: schema.ObjectAttributes{"p": {IsOptional: true, Constraint: schema.LiteralType{Type: cty.String}}, "qe\u0301": {IsOptional: true, Constraint: schema.LiteralType{Type: cty.Bool}}}}},
 			"obj3":   {IsOptional: true, Constraint: schema.Object{Attributes: schema.ObjectAttributes{"p": {IsOptional: true, Constraint: schema.LiteralType{Type: cty.String}}, "q": {IsOptional: true, Constraint: schema.LiteralType{Type: cty.Bool}}}}},
 			"any_c":  {IsOptional: true, Constraint: schema.AnyExpression{OfType: cty.String}},
 			"any_s2": {IsOptional: true, Constraint: schema.AnyExpression{OfType: cty.String}},
@@ -994,6 +1009,10 @@ any_n = lookup(thing.a.m,  "k1", 0)
 obj2 = {
   p = "v"
   qé = true
+}
+obj4 = {
+  p = "v"
+  qé  # c
 }
 obj3 = {
   p = "naı̈ve" # 👍🏽 ok
@@ -1302,8 +1321,18 @@ func modsWorld(unreadable bool) *World {
 	return w
 }
 
+// kindsbad: the kinds schema over small files that do not parse (a broken construct in the kinds document itself would
+// take the rest of that document with it)
+func kindsBad() *World {
+	k := kinds()
+	return &World{Name: "kindsbad", Schema: k.Schema, Funcs: k.Funcs, Docs: map[string]string{
+		// an index step without closing bracket at the top level: the parser extends it up to the start of a later line
+		"b1.tf": "thing \"a\" {\n  l = [\"p\", \"q\"]\n}\nany_d = thing.a.l[1%{]\nlt_l = [\"a\"]\n",
+	}}
+}
+
 func allWorlds() []*World {
-	ws := []*World{kinds(), kindSplit(), worldTF(), worldPair(), worldTFJSON(), worldTFBad(), hostile(), modsWorld(false), modsWorld(true)}
+	ws := []*World{kinds(), kindSplit(), kindsBad(), worldTF(), worldPair(), worldTFJSON(), worldTFBad(), hostile(), modsWorld(false), modsWorld(true)}
 	for _, w := range ws {
 		for _, pw := range w.Peers {
 			if err := pw.Schema.Validate(); err != nil {
